@@ -264,7 +264,7 @@ func genC18(repo string, maxObligations int) ([]byte, int, error) {
 				truncated = true
 				return
 			}
-			obs = append(obs, oblig{path: pathStr, expr: wrapExpr("chain")})
+			obs = append(obs, oblig{path: pathStr, expr: wrapExpr("c18ChA")})
 			return
 		}
 		if onPath[n] {
@@ -286,11 +286,11 @@ func genC18(repo string, maxObligations int) ([]byte, int, error) {
 				mk = func(inner string) string { return fmt.Sprintf("&%s{%s: *(%s)}", tq, e.field, inner) }
 			case "sliceptr":
 				mk = func(inner string) string {
-					return fmt.Sprintf("&%s{%s: c18Sl(sib, &%s{}, %s)}", tq, e.field, qual(e.to), inner)
+					return fmt.Sprintf("&%s{%s: c18Sl(sib, &%s{}, %s, %s)}", tq, e.field, qual(e.to), inner, strings.ReplaceAll(inner, "c18ChA", "c18ChB"))
 				}
 			case "sliceval":
 				mk = func(inner string) string {
-					return fmt.Sprintf("&%s{%s: c18Sl(sib, %s{}, *(%s))}", tq, e.field, qual(e.to), inner)
+					return fmt.Sprintf("&%s{%s: c18Sl(sib, %s{}, *(%s), *(%s))}", tq, e.field, qual(e.to), inner, strings.ReplaceAll(inner, "c18ChA", "c18ChB"))
 				}
 			case "mapptr":
 				mk = func(inner string) string { return fmt.Sprintf("&%s{%s: map[%s]*%s{%s: %s}}", tq, e.field, e.keyT, qual(e.to), e.key, inner) }
@@ -339,9 +339,16 @@ func genC18(repo string, maxObligations int) ([]byte, int, error) {
 		fmt.Fprintf(&sb, "\tcase %d:\n\t\treturn %q\n", i, o.path)
 	}
 	sb.WriteString("\t}\n\treturn \"\"\n}\n\n")
+	sb.WriteString("// c18HasRepeated: does the path of obligation i cross a repeated field?\nfunc c18HasRepeated(i int) bool {\n\tswitch i {\n")
+	for i, o := range obs {
+		if strings.Contains(o.expr, "c18Sl(") {
+			fmt.Fprintf(&sb, "\tcase %d:\n\t\treturn true\n", i)
+		}
+	}
+	sb.WriteString("\t}\n\treturn false\n}\n\n")
 	sb.WriteString("// c18Build materialises the object graph of obligation i with the failure chain at the end of its path.\n")
-	sb.WriteString("// c18Sl: the element on the path with empty sibling elements around it (sib 0: alone, 1: one before, 2: one after, 3: both)\nfunc c18Sl[T any](sib int, empty T, x T) []T {\n\tswitch sib {\n\tcase 1:\n\t\treturn []T{empty, x}\n\tcase 2:\n\t\treturn []T{x, empty}\n\tcase 3:\n\t\treturn []T{empty, x, empty}\n\t}\n\treturn []T{x}\n}\n\n")
-	sb.WriteString("func c18Build(i int, chain *c18Failure, sib int) any {\n\tswitch i {\n")
+	sb.WriteString("// c18Sl: the element on the path with sibling elements around it (sib 0: alone, 1: an empty one before, 2: after, 3: both, 4/5: a second copy of the same sub-path, holding the second failure chain, before / after)\nfunc c18Sl[T any](sib int, empty T, x T, x2 T) []T {\n\tswitch sib {\n\tcase 1:\n\t\treturn []T{empty, x}\n\tcase 2:\n\t\treturn []T{x, empty}\n\tcase 3:\n\t\treturn []T{empty, x, empty}\n\tcase 4:\n\t\treturn []T{x2, x}\n\tcase 5:\n\t\treturn []T{x, x2}\n\t}\n\treturn []T{x}\n}\n\n")
+	sb.WriteString("func c18Build(i int, chain *c18Failure, sib int, chain2 *c18Failure) any {\n\tc18ChA, c18ChB := chain, chain2\n\t_, _ = c18ChA, c18ChB\n\tswitch i {\n")
 	for i, o := range obs {
 		fmt.Fprintf(&sb, "\tcase %d:\n\t\treturn %s\n", i, o.expr)
 	}
